@@ -504,6 +504,9 @@ func checkAggCase(res *Result, ac *aggCase, U []absSig, idx int, repeats int) {
 				defer func() {
 					if e := recover(); e != nil {
 						res.violation(mk("C03", "panic", fmt.Sprintf("%s: Aggregate panicked: %v", route, e), nil, fmt.Sprint(e)))
+						for _, p := range []string{"C04", "C05", "C12"} {
+							res.violation(mk(p, "no-result", fmt.Sprintf("%s: Aggregate panicked instead of returning buckets: %v", route, e), nil, fmt.Sprint(e)))
+						}
 					}
 				}()
 				return snap.Aggregate(lvl)
@@ -732,7 +735,19 @@ func writeAggTraces(path string, U []absSig, rng *rand.Rand, thorough bool, res 
 				g := &stack.Goroutine{Signature: mkSig(&U[snapIdx[p]-1]), ID: 1 + perm[p], First: p == 0}
 				s.Goroutines = append(s.Goroutines, g)
 			}
-			a := s.Aggregate(levelOf(lv))
+			a := func() (a *stack.Aggregated) {
+				defer func() {
+					if e := recover(); e != nil {
+						for _, p := range []string{"C03", "C04", "C05", "C12"} {
+							res.violation(Finding{Property: p, Aspect: "panic", What: fmt.Sprintf("random snapshot of %d at %s: Aggregate panicked instead of returning buckets: %v", n, lv, e)})
+						}
+					}
+				}()
+				return s.Aggregate(levelOf(lv))
+			}()
+			if a == nil {
+				continue
+			}
 			c04, c12 := genericAggChecks(s, a, fmt.Sprintf("random snapshot of %d at %s", n, lv))
 			if c04 != "" {
 				res.violation(Finding{Property: "C04", Aspect: "partition", What: c04})
